@@ -10,103 +10,8 @@ From Coq Require Import List Arith NArith Bool Lia.
 Import ListNotations.
 Require Import Aiuti.Buffer Aiuti.BufferCore.
 
-(* ---- (1) delivered = successful sets of the trace ------------------------------ *)
-Definition ok_sets (o : list obs) : list nat :=
-  flat_map (fun x => match x with FnEnd _ true set => set | _ => [] end) o.
-
-Definition keeps_del (s : state) (r : state * list obs) : Prop :=
-  g_delivered (gh (fst r)) = g_delivered (gh s) /\ ok_sets (snd r) = [].
-
-Lemma ok_sets_app a b : ok_sets (a ++ b) = ok_sets a ++ ok_sets b.
-Proof. unfold ok_sets. apply flat_map_app. Qed.
-
-Lemma ok_sets_wrets (ws : list waiter) t k : ok_sets (map (fun w => WaitRet (wid w) t k) ws) = [].
-Proof. induction ws; simpl; auto. Qed.
-
-Lemma release_del s : keeps_del s (release s).
-Proof. unfold keeps_del, release; cbn. split; [reflexivity|apply ok_sets_wrets]. Qed.
-
-Lemma run_func0_del s ins : keeps_del s (run_func0 s ins).
-Proof.
-  unfold run_func0. destruct ins; [|split; reflexivity].
-  pose proof (release_del s) as H. destruct (release s). exact H.
-Qed.
-
-Lemma continue_round_del s ins ld : keeps_del s (continue_round s ins ld).
-Proof.
-  unfold continue_round. destruct (load_all (ld ++ q s)) as [[rem ys] fs].
-  destruct (unfinished s - length (q s) =? 0); destruct rem; cbn [andb];
-    try destruct (wants_cancel _); try (split; reflexivity);
-    match goal with |- keeps_del _ (run_func0 ?a ?b) => destruct (run_func0_del a b) as [H1 H2]; split; [rewrite H1; reflexivity|exact H2] end.
-Qed.
-
-Lemma start_round_del s : keeps_del s (start_round s).
-Proof.
-  unfold start_round. destruct (q s); [split; reflexivity|].
-  match goal with |- keeps_del _ (continue_round ?a ?b ?c) => destruct (continue_round_del a b c) as [H1 H2]; split; [rewrite H1; reflexivity|exact H2] end.
-Qed.
-
-Lemma run_func_del s ins : keeps_del s (run_func s ins).
-Proof.
-  unfold run_func. destruct ins; [|split; reflexivity].
-  destruct (release_del s) as [R1 R2]. destruct (release s) as [s1 o1]. unfold end_round.
-  destruct (start_round_del s1) as [S1 S2]. destruct (start_round s1) as [s2 o2]. unfold keeps_del. cbn [fst snd] in *.
-  split; [rewrite S1, R1; reflexivity|]. rewrite ok_sets_app, R2, S2. reflexivity.
-Qed.
-
-Lemma load_one_del s ins p : keeps_del s (load_one s ins p).
-Proof.
-  unfold load_one. destruct (p_fin p); [|split; reflexivity].
-  match goal with |- keeps_del _ (continue_round ?a ?b ?c) => destruct (continue_round_del a b c) as [H1 H2]; split; [rewrite H1; reflexivity|exact H2] end.
-Qed.
-
-Lemma after_gather_del s ins g : keeps_del s (after_gather s ins g).
-Proof. destruct g; cbn [after_gather]; [split; reflexivity|apply load_one_del|apply run_func_del|apply run_func_del]. Qed.
-
-Lemma on_put_del s : keeps_del s (on_put s).
-Proof.
-  unfold on_put. destruct (dm s); try (split; reflexivity).
-  - apply start_round_del.
-  - destruct g; try (split; reflexivity). destruct (q s); split; reflexivity.
-  - destruct (q s); [split; reflexivity|].
-    match goal with |- keeps_del _ (load_one ?a ?b ?c) => destruct (load_one_del a b c) as [H1 H2]; split; [rewrite H1; reflexivity|exact H2] end.
-Qed.
-
-Lemma do_feed_del s n a : keeps_del s (do_feed s n a).
-Proof.
-  unfold do_feed. destruct (open_here s n); cbn [negb]; [|split; reflexivity].
-  destruct (dm s); try (split; reflexivity).
-  - destruct (load_all (map (feed_if n a) ld)) as [[rem ys] fs]. destruct rem; [|split; reflexivity].
-    match goal with |- keeps_del _ (after_gather ?a ?b ?c) => destruct (after_gather_del a b c) as [H1 H2]; split; [rewrite H1; reflexivity|exact H2] end.
-  - destruct ((pid p =? n) && accepts p); [|split; reflexivity].
-    match goal with |- keeps_del _ (load_one ?a ?b ?c) => destruct (load_one_del a b c) as [H1 H2]; split; [rewrite H1; reflexivity|exact H2] end.
-Qed.
-
-Lemma do_put_del s p k c : keeps_del s (do_put s p k c).
-Proof.
-  unfold do_put. destruct (existsb (Nat.eqb p) (seen s)); [split; reflexivity|].
-  match goal with |- keeps_del _ (on_put ?a) => destruct (on_put_del a) as [H1 H2]; split; [rewrite H1; destruct c; reflexivity|exact H2] end.
-Qed.
-
-Lemma do_advance_del s dt : keeps_del s (do_advance s dt).
-Proof.
-  unfold do_advance. destruct (dm s); try (split; reflexivity).
-  - destruct g; try (split; reflexivity). destruct (d <=? now s + dt)%N; split; reflexivity.
-  - destruct (d <=? now s + dt)%N; [|split; reflexivity].
-    match goal with |- context [run_func ?a ?b] => destruct (run_func_del a b) as [H1 H2]; destruct (run_func a b) end.
-    split; [exact H1|exact H2].
-Qed.
-
-Lemma do_wait_del s w c : keeps_del s (do_wait s w c).
-Proof.
-  unfold do_wait. destruct (existsb (Nat.eqb w) (wseen s)); [split; reflexivity|].
-  unfold wait_core. match goal with |- context [unfinished ?x =? 0] => destruct (unfinished x =? 0) end; [|split; reflexivity].
-  cbn [dm set_gh set_wseen]. destruct (dm s); try (destruct (evset _); split; reflexivity).
-  - destruct g; try (destruct (evset _); split; reflexivity). destruct c; split; reflexivity.
-  - destruct c; [|split; reflexivity].
-    match goal with |- keeps_del _ (run_func ?a ?b) => destruct (run_func_del a b) as [H1 H2]; split; [rewrite H1; reflexivity|exact H2] end.
-Qed.
-
+(* ---- (1) delivered = successful sets of the trace: ok_sets / keeps_del and the per-helper
+        lemmas live in BufferCore.v (they are also used by the generic walk there) ---- *)
 (* each step appends to g_delivered exactly the successful sets it shows *)
 Lemma delivered_step s e :
   g_delivered (gh (fst (step s e))) = g_delivered (gh s) ++ ok_sets (snd (step s e)).
